@@ -23,3 +23,7 @@ mod c14_impact_distribution;
 mod c12_funding;
 #[cfg(kani)]
 mod c03_price_impact;
+#[cfg(kani)]
+mod c11_pnl;
+#[cfg(kani)]
+mod c01_helpers;
